@@ -4,15 +4,18 @@ open Lean AV.Container AV.Props.C18
 
 namespace Drv
 
-def parseOp18 (j : Json) : Option (Op String) :=
+/-- one recorded operation as operations of the plain list; starting from a container decoded from a JSON array is
+starting from that many appends -/
+def parseOp18 (j : Json) : Option (List (Op String)) :=
   let tok := jstr j "tok"
   match jstr j "op" with
-  | "append" => some (.append tok)
-  | "prepend" => some (.prepend tok)
-  | "insert" => some (.insert (jnat j "i") tok)
-  | "set" => some (.set (jnat j "i") tok)
-  | "remove" => some (.remove (jnat j "i"))
-  | "swap" => some (.swap (jnat j "i") (jnat j "j"))
+  | "append" => some [.append tok]
+  | "prepend" => some [.prepend tok]
+  | "insert" => some [.insert (jnat j "i") tok]
+  | "set" => some [.set (jnat j "i") tok]
+  | "remove" => some [.remove (jnat j "i")]
+  | "swap" => some [.swap (jnat j "i") (jnat j "j")]
+  | "decoded" => some ((match jget j "toks" with | .arr xs => xs.toList | _ => []).map fun (t : Json) => Op.append (t.getStr?.toOption.getD "<?>"))
   | _ => none
 
 def strList18 (j : Json) : List String :=
@@ -51,13 +54,21 @@ def c18 (inp obs : Json) : Res :=
     let ok := got == expect && (jbool obs "serNil" == model.isNone) && !(jbool obs "serErr")
     { agree := ok, specOk := ok, why := if ok then "" else s!"slot reports {got}, last set was {expect}", nontrivial := !ops.isEmpty }
   else
-  let ops := opsJ.filterMap parseOp18
-  if ops.length != opsJ.length then { agree := false, specOk := false, why := "driver: unreadable op" } else
+  let parsed := opsJ.map parseOp18
+  if parsed.any (·.isNone) then { agree := false, specOk := false, why := "driver: unreadable op" } else
+  let groups : List (List (Op String)) := parsed.map fun o => o.getD []
+  let ops := groups.flatten
+  -- index of the recorded operation an index into the flattened list belongs to
+  let recIdx (i : Nat) : Nat :=
+    (groups.foldl (fun (acc : Nat × Nat × Option Nat) g =>
+      let (pos, k, found) := acc
+      if found.isSome then acc else
+      if i < pos + g.length || (g.isEmpty && false) then (pos, k, some k) else (pos + g.length, k + 1, none)) (0, 0, none)).2.2.getD 0
   let panicAt : Int := (jget obs "panicAt").getInt?.toOption.getD (-1)
   match runModel18 ops, runSpec18 ops with
   | .error i, .error i' =>
-    let ok := panicAt == (i : Int) && i == i'
-    { agree := panicAt == (i : Int), specOk := ok, why := if ok then "" else s!"an index out of range at op {i'} of the plain list; implementation panicAt={panicAt}, model {i}" }
+    let ok := panicAt == (recIdx i : Int) && i == i'
+    { agree := panicAt == (recIdx i : Int), specOk := ok, why := if ok then "" else s!"an index out of range at op {recIdx i'} of the plain list; implementation panicAt={panicAt}, model {recIdx i}" }
   | .ok cs, .ok l =>
     if panicAt != -1 then { agree := false, specOk := false, why := s!"the implementation panicked at op {panicAt}; the plain list accepts all operations" } else
     if (obs.getObjVal? "observePanic").toOption.isSome then { agree := false, specOk := false, why := s!"observing the container panicked: {jstr obs "observePanic"}" } else
